@@ -237,8 +237,10 @@ func (fc *FnCtx) havocAll(why string) {
 		}
 	}
 	h := &Heap{regs: map[string]string{}}
+	preserve := append([]string{}, fc.preserve...)
+	fc.preserve = nil
 	h.lazy = func(r, s string) string {
-		if fc.immutableRegion(r) {
+		if fc.immutableRegion(r) || contains(preserve, r) {
 			return prev.get(r, s)
 		}
 		c := qsym(fmt.Sprintf("%s@h%d", r, n))
@@ -338,6 +340,7 @@ func (fc *FnCtx) applyContract(con *FuncContract, name string, c *ssa.CallCommon
 	}
 	pre := fc.heap
 	// frame
+	fc.preserve = strings.Fields(con.Opts["preserve"])
 	if !con.HasAssigns {
 		fc.havocAll("call " + name)
 	} else {
